@@ -162,7 +162,10 @@ def preprocess_tokens(fmt: str) -> List[str]:
         tokens = structparser(m) if (m := STRUCT_PACK_RE.match(meta_token)) else [meta_token]
 
         # Extend final tokens list with parsed tokens, repeated by the factor
-        final_tokens.extend(tokens * factor)
+        try:
+            final_tokens.extend(tokens * factor)
+        except OverflowError:
+            raise ValueError(f"The factor {factor} is too large in '{meta_token}'.")
     return final_tokens
 
 
